@@ -22,7 +22,7 @@ TCancel == IsEv("Cancel") /\ Consume /\ OpCancel(Ev.id)
 TLin == (\E id \in DOMAIN pendOps : Lin(id)) /\ UNCHANGED l
 THStart == IsEv("HStart") /\ Consume /\ HStart
 THEnd == IsEv("HEnd") /\ Consume /\ HEnd
-TSaw == IsEv("ClientSaw") /\ Consume /\ ClientSaw(Ev.first, Ev.nReplies, Ev.wellFormed, Ev.err, Ev.mustReply)
+TSaw == IsEv("ClientSaw") /\ Consume /\ ClientSaw(Ev.first, Ev.nReplies, Ev.wellFormed, Ev.err, Ev.mustReply, Ev.closed)
 TDtorB == IsEv("DtorBegin") /\ Consume /\ DtorBegin
 TDtorE == IsEv("DtorEnd") /\ Consume /\ DtorEnd
 \* initialisation with an unusable socket path must fail cleanly (exception), never corrupt memory
